@@ -33,65 +33,63 @@ inductive Stmt
   | matchTable (rows : List (Str × Str))
   deriving DecidableEq, Repr
 
-def endmark (cont : Bool) : Str := if cont then "arrowtail=diamond dir=both".toList else []
+def endmark (cont : Bool) : Str := if cont then cl!"arrowtail=diamond dir=both" else []
 
 def tableRow (r : Str × Str) : Str :=
-  "\t<tr>\n".toList ++ "\t\t<td><b>".toList ++ r.1 ++ "</b></td><td>".toList ++ htmlEscape r.2
-    ++ "</td>\n".toList ++ "\t</tr>\n".toList
+  cl!"\t<tr>\n" ++ cl!"\t\t<td><b>" ++ r.1 ++ cl!"</b></td><td>" ++ htmlEscape r.2
+    ++ cl!"</td>\n" ++ cl!"\t</tr>\n"
 
 def tableText (rows : List (Str × Str)) : Str :=
-  "<table>\n".toList ++ rows.flatMap tableRow ++ "</table>".toList
+  cl!"<table>\n" ++ rows.flatMap tableRow ++ cl!"</table>"
 
 def clusterHead (fname : Str) : Str :=
-  "subgraph \"cluster_".toList ++ fname ++ "\" {\n".toList
-    ++ "\n        penwidth=2.0\n        color=darkorange4;\n        label = \"".toList ++ fname
-    ++ "\";\n                    ".toList
+  cl!"subgraph \"cluster_" ++ fname ++ cl!"\" {\n"
+    ++ cl!"\n        penwidth=2.0\n        color=darkorange4;\n        label = \"" ++ fname
+    ++ cl!"\";\n                    "
 
 def renderStmt : Stmt → Str
   | .edgeObj s d l c =>
-    digits s ++ " -> ".toList ++ digits d ++ " [label=\"".toList ++ l ++ "\" ".toList ++ endmark c ++ "]\n".toList
+    digits s ++ cl!" -> " ++ digits d ++ cl!" [label=\"" ++ l ++ cl!"\" " ++ endmark c ++ cl!"]\n"
   | .edgePrim s d l c =>
-    digits s ++ " -> \"".toList ++ d ++ "\" [label=\"".toList ++ l ++ "\" ".toList ++ endmark c ++ "]\n".toList
-  | .node false i n a => digits i ++ "[label=\"{".toList ++ n ++ ['|'] ++ a ++ "}\"]\n".toList
-  | .node true i n a => digits i ++ "[ label=\"{".toList ++ n ++ ['|'] ++ a ++ "}\"]\n\n".toList
+    digits s ++ cl!" -> \"" ++ d ++ cl!"\" [label=\"" ++ l ++ cl!"\" " ++ endmark c ++ cl!"]\n"
+  | .node false i n a => digits i ++ cl!"[label=\"{" ++ n ++ ['|'] ++ a ++ cl!"}\"]\n"
+  | .node true i n a => digits i ++ cl!"[ label=\"{" ++ n ++ ['|'] ++ a ++ cl!"}\"]\n\n"
   | .cluster f ks =>
-    clusterHead f ++ ks.flatMap (fun k => digits k ++ ";\n".toList) ++ "\n}\n".toList
+    clusterHead f ++ ks.flatMap (fun k => digits k ++ cl!";\n") ++ cl!"\n}\n"
   | .link s d c l =>
-    digits s ++ " -> ".toList ++ digits d ++ ['[']
-      ++ (if c then "arrowtail=diamond, dir=both, ".toList else []) ++ "headlabel=\"".toList ++ l ++ "\"]\n".toList
-  | .inh b s => digits b ++ " -> ".toList ++ digits s ++ " [dir=back]\n".toList
-  | .blank => "\n\n".toList
+    digits s ++ cl!" -> " ++ digits d ++ ['[']
+      ++ (if c then cl!"arrowtail=diamond, dir=both, " else []) ++ cl!"headlabel=\"" ++ l ++ cl!"\"]\n"
+  | .inh b s => digits b ++ cl!" -> " ++ digits s ++ cl!" [dir=back]\n"
+  | .blank => cl!"\n\n"
   | .matchTable rows =>
-    "match_rules [ shape=plaintext, label=< ".toList ++ tableText rows ++ " >]\n\n".toList
+    cl!"match_rules [ shape=plaintext, label=< " ++ tableText rows ++ cl!" >]\n\n"
 
 /-- header, statements, closing brace -/
 def renderDoc (ss : List Stmt) : Str :=
-  Gen.Dot.header ++ ss.flatMap renderStmt ++ "\n}\n".toList
+  Gen.Dot.header ++ ss.flatMap renderStmt ++ cl!"\n}\n"
 
 /-! the tokens and the recognised statements of one `Stmt` -/
 
-def tId (s : String) : Tok := .id s.toList
-
 def endmarkAttrs (cont : Bool) : List (Tok × Tok) :=
-  if cont then [(tId "arrowtail", tId "diamond"), (tId "dir", tId "both")] else []
+  if cont then [((Tok.id cl!"arrowtail"), (Tok.id cl!"diamond")), ((Tok.id cl!"dir"), (Tok.id cl!"both"))] else []
 
 def recordLabel (n a : Str) : Str := '{' :: n ++ '|' :: a ++ ['}']
 
 def stmtEvs : Stmt → List Ev
-  | .edgeObj s d l c => [.edge (.num (digits s)) (.num (digits d)) ((tId "label", .qstr l) :: endmarkAttrs c)]
-  | .edgePrim s d l c => [.edge (.num (digits s)) (.qstr d) ((tId "label", .qstr l) :: endmarkAttrs c)]
-  | .node _ i n a => [.node (.num (digits i)) [(tId "label", .qstr (recordLabel n a))]]
+  | .edgeObj s d l c => [.edge (.num (digits s)) (.num (digits d)) (((Tok.id cl!"label"), .qstr l) :: endmarkAttrs c)]
+  | .edgePrim s d l c => [.edge (.num (digits s)) (.qstr d) (((Tok.id cl!"label"), .qstr l) :: endmarkAttrs c)]
+  | .node _ i n a => [.node (.num (digits i)) [((Tok.id cl!"label"), .qstr (recordLabel n a))]]
   | .cluster f ks =>
-    [.sub (some (.qstr ("cluster_".toList ++ f))), .assign (tId "penwidth") (.num "2.0".toList),
-     .assign (tId "color") (tId "darkorange4"), .assign (tId "label") (.qstr f)]
+    [.sub (some (.qstr (cl!"cluster_" ++ f))), .assign ((Tok.id cl!"penwidth")) (.num cl!"2.0"),
+     .assign ((Tok.id cl!"color")) ((Tok.id cl!"darkorange4")), .assign ((Tok.id cl!"label")) (.qstr f)]
       ++ ks.map (fun k => .node (.num (digits k)) []) ++ [.close]
   | .link s d c l =>
-    [.edge (.num (digits s)) (.num (digits d)) (endmarkAttrs c ++ [(tId "headlabel", .qstr l)])]
-  | .inh b s => [.edge (.num (digits b)) (.num (digits s)) [(tId "dir", tId "back")]]
+    [.edge (.num (digits s)) (.num (digits d)) (endmarkAttrs c ++ [((Tok.id cl!"headlabel"), .qstr l)])]
+  | .inh b s => [.edge (.num (digits b)) (.num (digits s)) [((Tok.id cl!"dir"), (Tok.id cl!"back"))]]
   | .blank => []
   | .matchTable rows =>
-    [.node (tId "match_rules") [(tId "shape", tId "plaintext"),
-      (tId "label", .html (' ' :: tableText rows ++ [' ']))]]
+    [.node ((Tok.id cl!"match_rules")) [((Tok.id cl!"shape"), (Tok.id cl!"plaintext")),
+      ((Tok.id cl!"label"), .html (' ' :: tableText rows ++ [' ']))]]
 
 /-! ## 2. `model_export_to_file` -/
 
@@ -138,7 +136,7 @@ structure ESt where
 def ESt.emit (s : ESt) (x : Stmt) : ESt := { s with out := x :: s.out }
 
 def Prim.ty : Prim → Str
-  | .str _ => "str".toList
+  | .str _ => cl!"str"
   | .lit t _ => t
 
 /-- `str(x)` -/
@@ -197,16 +195,16 @@ def exportAttrs (rec : ESt → Nat → Option ESt) (src : Nat) :
     | .many xs =>
       if xs.all Item.isPrim then
         exportAttrs rec src as
-          (nm, tx ++ reqMark a.req ++ a.name ++ ":list=[".toList ++ join [','] (xs.map Item.repr) ++ "]\\l".toList) st
+          (nm, tx ++ reqMark a.req ++ a.name ++ cl!":list=[" ++ join [','] (xs.map Item.repr) ++ cl!"]\\l") st
       else
         match exportItems rec src a.name a.cont 0 xs st with
         | none => none
         | some st' => exportAttrs rec src as (nm, tx) st'
     | .one p =>
-      if a.name = "name".toList then exportAttrs rec src as (p.nameText, tx) st
+      if a.name = cl!"name" then exportAttrs rec src as (p.nameText, tx) st
       else
         exportAttrs rec src as
-          (nm, tx ++ reqMark a.req ++ a.name ++ ':' :: p.ty ++ '=' :: p.repr ++ "\\l".toList) st
+          (nm, tx ++ reqMark a.req ++ a.name ++ ':' :: p.ty ++ '=' :: p.repr ++ cl!"\\l") st
     | .ref t =>
       match rec (st.emit (.edgeObj src t a.name a.cont)) t with
       | none => none
@@ -298,7 +296,7 @@ def attrItems (all classes : List MCls) (c : MCls) : List MAttr → Option (List
     match attrItems all classes c as with
     | none => none
     | some rest =>
-      let l : List MItem := if a.ref && a.clsName != "OBJECT".toList then [.link c a] else []
+      let l : List MItem := if a.ref && a.clsName != cl!"OBJECT" then [.link c a] else []
       if classes.any (·.id = a.clsId) then some (l ++ rest)
       else
         match findCls all a.clsId with
@@ -327,19 +325,19 @@ def mmItems (all : List MCls) (allNames : List Str) : Option (List MItem) :=
   | some ls =>
     some ((classes.filter (fun c => !allNames.contains c.name)).map .cls ++ .blank :: ls)
 
-def multRequired (m : Str) : Bool := m = "1".toList || m = "1..*".toList
-def multList (m : Str) : Bool := m = "0..*".toList || m = "1..*".toList
+def multRequired (m : Str) : Bool := m = cl!"1" || m = cl!"1..*"
+def multList (m : Str) : Bool := m = cl!"0..*" || m = cl!"1..*"
 
 def attrType (a : MAttr) : Str :=
-  if multList a.mult then "list[".toList ++ a.clsName ++ [']'] else a.clsName
+  if multList a.mult then cl!"list[" ++ a.clsName ++ [']'] else a.clsName
 
-def isPlainAttr (a : MAttr) : Bool := !(a.ref && a.clsName != "OBJECT".toList)
+def isPlainAttr (a : MAttr) : Bool := !(a.ref && a.clsName != cl!"OBJECT")
 
 /-- `DotRenderer.render_class`, the attribute lines -/
 def dotAttrLine (a : MAttr) : Str :=
-  a.name ++ ": ".toList
-    ++ (if multRequired a.mult then attrType a else "optional\\<".toList ++ attrType a ++ "\\>".toList)
-    ++ "\\l".toList
+  a.name ++ cl!": "
+    ++ (if multRequired a.mult then attrType a else cl!"optional\\<" ++ attrType a ++ cl!"\\>")
+    ++ cl!"\\l"
 
 def dotClassAttrs (c : MCls) : Str :=
   if c.typ = .abstract then [] else (c.attrs.filter isPlainAttr).flatMap dotAttrLine
@@ -366,11 +364,11 @@ def dotItem : MItem → List Stmt
     if c.typ = .match then []
     else [.node true c.id (if c.typ = .abstract then '*' :: c.name else c.name) (dotClassAttrs c)]
   | .blank => [.blank]
-  | .link c a => [.link c.id a.clsId a.cont (a.name ++ ' ' :: (if a.mult = "1".toList then [] else a.mult))]
+  | .link c a => [.link c.id a.clsId a.cont (a.name ++ ' ' :: (if a.mult = cl!"1" then [] else a.mult))]
   | .inh b s => [.inh b.id s.id]
 
 def mmDotStmts (all : List MCls) (baseNames : List Str) : Option (List Stmt) :=
-  match mmItems all (baseNames ++ ["OBJECT".toList]) with
+  match mmItems all (baseNames ++ [cl!"OBJECT"]) with
   | none => none
   | some items =>
     let rules := (collectMatch baseNames items []).mergeSort (fun a b => strLe a.fqn b.fqn)
@@ -384,47 +382,47 @@ def mmDot (all : List MCls) (baseNames : List Str) : Option Str :=
 /-! ## 4. PlantUML renderer, by lines -/
 
 def typName : Typ → Str
-  | .common => "common".toList
-  | .abstract => "abstract".toList
-  | .match => "match".toList
+  | .common => cl!"common"
+  | .abstract => cl!"abstract"
+  | .match => cl!"match"
 
 def pumlAttrLine (a : MAttr) : Str :=
-  "  ".toList ++ a.name ++ " : ".toList
-    ++ (if multRequired a.mult then attrType a else "optional<".toList ++ attrType a ++ ['>'])
+  cl!"  " ++ a.name ++ cl!" : "
+    ++ (if multRequired a.mult then attrType a else cl!"optional<" ++ attrType a ++ ['>'])
 
 def pumlClassLines (c : MCls) : List Str :=
-  let stereo : Str := if c.typ = .common then [] else "<<".toList ++ typName c.typ ++ ">>".toList
+  let stereo : Str := if c.typ = .common then [] else cl!"<<" ++ typName c.typ ++ cl!">>"
   let attrs : List Str := if c.typ = .common then (c.attrs.filter isPlainAttr).map pumlAttrLine else []
-  [[], [], "class ".toList ++ c.fqn ++ ' ' :: stereo ++ " {".toList] ++ attrs ++ ["}".toList]
+  [[], [], cl!"class " ++ c.fqn ++ ' ' :: stereo ++ cl!" {"] ++ attrs ++ [cl!"}"]
 
 def pumlItem : MItem → List Str
   | .cls c => if c.typ = .match then [] else pumlClassLines c
   | .blank => [[], []]
   | .link c a =>
-    [c.fqn ++ ' ' :: (if a.cont then "*-->".toList else "-->".toList) ++ ' '
-      :: (if a.mult = "1".toList then [] else '"' :: a.mult ++ ['"']) ++ ' ' :: a.clsFqn ++ ": ".toList ++ a.name]
-  | .inh b s => [b.fqn ++ " <|-- ".toList ++ s.fqn]
+    [c.fqn ++ ' ' :: (if a.cont then cl!"*-->" else cl!"-->") ++ ' '
+      :: (if a.mult = cl!"1" then [] else '"' :: a.mult ++ ['"']) ++ ' ' :: a.clsFqn ++ cl!": " ++ a.name]
+  | .inh b s => [b.fqn ++ cl!" <|-- " ++ s.fqn]
 
 def pumlLegend (rules : List MCls) : List Str :=
   if rules.isEmpty then []
   else
-    [[], "legend".toList, "  Match rules:".toList, "  |= Name  |= Rule details |".toList]
-      ++ rules.map (fun c => "  | ".toList ++ c.name ++ " | ".toList ++ dotEscape c.matchStr ++ " |".toList)
-      ++ ["end legend".toList, []]
+    [[], cl!"legend", cl!"  Match rules:", cl!"  |= Name  |= Rule details |"]
+      ++ rules.map (fun c => cl!"  | " ++ c.name ++ cl!" | " ++ dotEscape c.matchStr ++ cl!" |")
+      ++ [cl!"end legend", []]
 
 def pumlHeader (linetype : Option Str) : List Str :=
-  ["@startuml".toList, "set namespaceSeparator .".toList,
-   (match linetype with | some l => "skinparam linetype ".toList ++ l | none => [])]
+  [cl!"@startuml", cl!"set namespaceSeparator .",
+   (match linetype with | some l => cl!"skinparam linetype " ++ l | none => [])]
 
 /-- the lines written by `metamodel_export_tofile(mm, f, PlantUmlRenderer(linetype))`; each is
 followed by a newline in the file (`blank` contributes two newlines: its two lines are
 glued to the preceding one).  Legend rows in `rules` order (the source iterates a set). -/
 def mmPumlLines (all : List MCls) (baseNames : List Str) (linetype : Option Str) : Option (List Str) :=
-  match mmItems all (baseNames ++ ["OBJECT".toList]) with
+  match mmItems all (baseNames ++ [cl!"OBJECT"]) with
   | none => none
   | some items =>
     let rules := (collectMatch baseNames items []).mergeSort (fun a b => strLe a.fqn b.fqn)
-    some (pumlHeader linetype ++ items.flatMap pumlItem ++ pumlLegend rules ++ ["@enduml".toList])
+    some (pumlHeader linetype ++ items.flatMap pumlItem ++ pumlLegend rules ++ [cl!"@enduml"])
 
 def unlines (ls : List Str) : Str := ls.flatMap (· ++ ['\n'])
 
@@ -459,24 +457,24 @@ def className (l : Str) : Str := (l.drop 6).takeWhile (· ≠ ' ')
 
 def ustep (s : UState) (l : Str) : Option UState :=
   match s.mode with
-  | .u0 => if l = "@startuml".toList then some { s with mode := .top } else none
+  | .u0 => if l = cl!"@startuml" then some { s with mode := .top } else none
   | .top =>
     if l = [] then some s
-    else if l = "@enduml".toList then some { s with mode := .done }
-    else if l = "legend".toList then some { s with mode := .inLegend }
-    else if startsWith "class ".toList l then
-      if endsWith " {".toList l && !hasBrace (l.dropLast) then
+    else if l = cl!"@enduml" then some { s with mode := .done }
+    else if l = cl!"legend" then some { s with mode := .inLegend }
+    else if startsWith cl!"class " l then
+      if endsWith cl!" {" l && !hasBrace (l.dropLast) then
         some { mode := .inClass, classes := className l :: s.classes }
       else none
     else if hasBrace l then none
-    else if startsWith "set ".toList l || startsWith "skinparam ".toList l then some s
-    else if isInfix "-->".toList l || isInfix "<|--".toList l then some s
+    else if startsWith cl!"set " l || startsWith cl!"skinparam " l then some s
+    else if isInfix cl!"-->" l || isInfix cl!"<|--" l then some s
     else none
   | .inClass =>
-    if l = "}".toList then some { s with mode := .top }
-    else if startsWith "  ".toList l && !hasBrace l then some s
+    if l = cl!"}" then some { s with mode := .top }
+    else if startsWith cl!"  " l && !hasBrace l then some s
     else none
-  | .inLegend => if l = "end legend".toList then some { s with mode := .top } else some s
+  | .inLegend => if l = cl!"end legend" then some { s with mode := .top } else some s
   | .done => if l = [] then some s else none
 
 def usteps : UState → List Str → Option UState
